@@ -35,8 +35,10 @@ func inlineEntries(p *Prog) []string {
 			res = append(res, k)
 		}
 	}
-	for _, k := range p.methodsOf(".", "tx") {
-		if p.Funcs[k].Obj.Exported() {
+	// the root package's handle: exported methods of its unexported types (tx, or the parts it is split into)
+	root := p.Pkg(".")
+	for _, k := range sortedFuncKeys(p) {
+		if c := p.Funcs[k]; c.Pkg == root && c.Decl != nil && c.Decl.Recv != nil && c.Decl.Body != nil && c.Obj.Exported() && !ast.IsExported(recvDeclTypeName(c.Decl)) {
 			res = append(res, k)
 		}
 	}
